@@ -45,9 +45,13 @@ Fixpoint name_eqb (a b : list Z) : bool :=
 (** scanattrs cuts every token at FIELDNAMELENMAX characters *)
 Definition cut_name (nm : list Z) : list Z := firstn (Z.to_nat FIELDNAMELENMAX) nm.
 
-(** VSfdefine (vsfld.c ~255) for a name that is not yet in the symbol table: checks, then append.
-    [None] = FAIL.  (Redefinition of a name is outside the model: the C code compares against the wrong
-    table there.) *)
+(** VSfdefine (vsfld.c ~255): checks; then the new definition replaces the entry of the same name (name, type, isize
+    and order of that entry are all overwritten) or is appended.  [None] = FAIL. *)
+Fixpoint put_sym (s : symdef) (usym : list symdef) : list symdef :=
+  match usym with
+  | [] => [s]
+  | g :: t => if name_eqb (s_name s) (s_name g) then s :: t else g :: put_sym s t
+  end.
 Definition m_fdefine (usym : list symdef) (name : list Z) (localtype order : Z) : option (list symdef) :=
   (* scanattrs must find exactly one token: no comma, not empty *)
   if existsb (Z.eqb 44) name || match name with [] => true | _ => false end then None else
@@ -57,7 +61,7 @@ Definition m_fdefine (usym : list symdef) (name : list Z) (localtype order : Z) 
   | Some sz =>
       let isize := s16 sz in
       if (MAX_FIELD_SIZE <? isize * order) then None else
-      Some (usym ++ [mksym (cut_name name) (s16 localtype) (u16 isize) (u16 order)])
+      Some (put_sym (mksym (cut_name name) (s16 localtype) (u16 isize) (u16 order)) usym)
   end.
 
 Fixpoint find_sym (nm : list Z) (l : list symdef) : option symdef :=
@@ -572,6 +576,17 @@ Definition m_vunpackvs (buf : list Z) : option vhdr :=
   if negb (v2 =? version) || negb (m2 =? more) then None else
   Some (mkvh il nv ivs (zip_fields names types isizes offs orders) vsname vsclass extag exref version more)
   end end end end end end end end end end end end end end end.
+
+(* ------------------------------------------------------------------ *)
+(** * VSfexist (vg.c ~312): every requested name must be a field; the search result of EACH name is looked at *)
+Definition fexist_one (nm : list Z) (fl : list wfield) : bool := existsb (fun f => name_eqb nm (w_name f)) fl.
+Fixpoint fexist_loop (fl : list wfield) (names : list (list Z)) : bool :=
+  match names with [] => true | nm :: rest => if fexist_one nm fl then fexist_loop fl rest else false end.
+Definition m_vsfexist (fl : list wfield) (names : list (list Z)) : bool :=
+  match names with
+  | [] => false
+  | _ => if VSFIELDMAX <? Z.of_nat (length names) then false else fexist_loop fl (map cut_name names)
+  end.
 
 (* ------------------------------------------------------------------ *)
 (** * VSsizeof (vg.c ~388) *)
